@@ -175,15 +175,23 @@ Fixpoint parse_all {A B} (f : A -> option B) (l : list A) : option (list B) :=
   | x :: l' => match f x, parse_all f l' with Some y, Some r => Some (y :: r) | _, _ => None end
   end.
 
-Definition parse_cfg (l : list tok) : option (cfg * nat) :=
+Definition parse_cfg_cs (l : list tok) : option (bool * bool * nat * csampler) :=
   match l with
   | c :: en :: rnd :: nth :: s =>
       match parse_bool en, parse_bool rnd, parse_nat nth, parse_cs s with
       | Some e, Some r, Some n, Some cs =>
-          if is_tag "CFG" c && Nat.leb 1 n && Nat.leb n 4 then Some (mk_cfg e r cs, n) else None
+          if is_tag "CFG" c && Nat.leb 1 n && Nat.leb n 4 then Some (e, r, n, cs) else None
       | _, _, _, _ => None
       end
   | _ => None
+  end.
+Definition parse_cfg (l : list tok) : option (cfg * nat) :=
+  match parse_cfg_cs l with Some (e, r, n, cs) => Some (cfg_of e r cs, n) | None => None end.
+(* the sampler of a case, for the coverage tag *)
+Definition case_sampler (l : list tok) : csampler :=
+  match split_toks "|" l with
+  | hdr :: _ => match parse_cfg_cs hdr with Some (_, _, _, cs) => cs | None => CScript end
+  | [] => CScript
   end.
 
 Definition parse_case (l : list tok) : option case :=
@@ -380,7 +388,7 @@ Definition start_features (cf : cfg) (w : world) (t : nat) (p : parent_opt) (gsi
   let active := active_ctx w t in
   let pa := eval_parent w t p in
   let parent := resolve_parent active pa in
-  let b := new_span (csample (cf_sampler cf) scr) (cf_random cf) gsid gtid parent in
+  let b := new_span (cf_samp cf scr) (cf_random cf) gsid gtid parent in
   [match pa with
    | PAsCtx c => if ctx_valid c then (if ctx_valid active then "E" else "e") else if ctx_valid active then "a" else "n"
    | PAsContext c r => if ctx_valid c then (if ctx_valid active then "C" else "c")
@@ -408,7 +416,7 @@ Definition run_tag (l : list tok) : list tok :=
   match parse_case l with
   | Some (cf, n, ops) =>
       let fs := features cf (world0 n) ops in
-      [tag ((if cf_enabled cf then "" else "disabled_") +++ cs_tag (cf_sampler cf) +++ "_" +++
+      [tag ((if cf_enabled cf then "" else "disabled_") +++ cs_tag (case_sampler l) +++ "_" +++
             (if existsb (fun o => match snd o with SStart _ _ _ _ => true | _ => false end) ops then "" else "nostart") +++
             fold_right (fun f acc => if existsb (String.eqb f) fs then f +++ acc else acc) "" all_features)]
   | None => bad_case
